@@ -181,7 +181,8 @@ pub fn contexts_of(c: &LineCase) -> Vec<(&'static str, LineCase)> {
     }
     let mut v = vec![
         ("held in a variable", LineCase { text: format!("zq = {}\nzq", c.text), ..c.clone() }),
-        ("held in a variable with a non-ASCII name", LineCase { text: format!("ölçü = {}\nölçü", c.text), ..c.clone() }),
+        ("held in a variable with a non-ASCII name that also contains a number", LineCase { text: format!("ölçü 2 = {}\nölçü 2", c.text), ..c.clone() }),
+        ("held in a variable whose name contains a hyphen", LineCase { text: format!("net-income = {}\nnet-income", c.text), ..c.clone() }),
         ("followed by a comment", LineCase { text: format!("{} # note 5 %", c.text), ..c.clone() }),
         ("followed by a comment with multi-byte and case-length-changing characters", LineCase { text: format!("{} # yıl İ ŉ 日本", c.text), ..c.clone() }),
         ("as the second line of a text", LineCase { text: format!("1 + 1\n{}", c.text), ..c.clone() }),
